@@ -59,6 +59,7 @@ type Ctx struct {
 }
 
 func NewCtx(p *core.Prog, prop, tier string) *Ctx {
+	installPinnedNames(p)
 	c := newCtx(p, prop, tier)
 	curGraph = c.G
 	return c
